@@ -44,6 +44,8 @@ type c06Fork struct {
 	Suffix  []int // per new block: number of info logs
 	Trigger int   // applied when the node has made this many more RPCs after the previous operation
 	Quiesce bool  // let the node go idle before this fork (isolated fork)
+	Down    bool  // the node is stopped before the fork and restarted after it (and after the chain grew)
+	PassFin bool  // with Down: the chain grows until finality has passed the fork point before the restart
 }
 
 type c06Case struct {
@@ -66,6 +68,9 @@ func c06Gen(rt *rapid.T) c06Case {
 	nf := rapid.IntRange(1, 4).Draw(rt, "nForks")
 	for i := 0; i < nf; i++ {
 		f := c06Fork{At: rapid.IntRange(0, 8).Draw(rt, "forkDepth"), Trigger: rapid.IntRange(0, 40).Draw(rt, "trigger"), Quiesce: rapid.Bool().Draw(rt, "isolated")}
+		if rapid.IntRange(0, 3).Draw(rt, "whileDown") == 0 {
+			f.Down, f.PassFin = true, rapid.Bool().Draw(rt, "finalityPassesFork")
+		}
 		for k, m := 0, rapid.IntRange(0, 8).Draw(rt, "suffixLen"); k < m; k++ {
 			f.Suffix = append(f.Suffix, rapid.SampledFrom([]int{0, 1, 1, 2}).Draw(rt, "suffixLogs"))
 		}
@@ -187,6 +192,7 @@ func reorgEventsFull(path string) ([]uint64, []common.Hash) {
 }
 
 type c06Result struct {
+	abandoned  int
 	sig        string
 	verdict    string
 	inconcl    string
@@ -213,12 +219,13 @@ func c06Run(c c06Case) (res c06Result) {
 	}
 	setPtrs()
 	var (
-		mu        sync.Mutex
-		rpcs      int
-		sinceLog  int // tip polls since the last FilterLogs
-		sweeps    int // detector sweeps since the last FilterLogs
-		cancelFn  context.CancelFunc
-		restarted bool
+		mu          sync.Mutex
+		rpcs        int
+		sinceLog    int // tip polls since the last FilterLogs
+		sweeps      int // detector sweeps since the last FilterLogs
+		cancelFn    context.CancelFunc
+		restarted   bool
+		cancelledAt time.Time
 	)
 	chain.Hook = func(ch *fakechain.Chain, call fakechain.Call) error {
 		mu.Lock()
@@ -226,6 +233,7 @@ func c06Run(c c06Case) (res c06Result) {
 		rpcs++
 		if c.RestartAt >= 0 && !restarted && rpcs >= c.RestartAt && cancelFn != nil {
 			restarted = true
+			cancelledAt = time.Now()
 			cancelFn()
 		}
 		switch {
@@ -274,8 +282,10 @@ func c06Run(c c06Case) (res c06Result) {
 		cancel()
 		select {
 		case <-done:
-		case <-time.After(10 * time.Second):
-			res.inconcl = "syncer did not stop within 10s of cancellation"
+		case <-time.After(3 * time.Second):
+			// handleReorg retries Reorg for ever on a cancelled context (observation O7): the instance is abandoned, as a
+			// killed process would be; its goroutine only sleeps and fails to open transactions
+			res.abandoned++
 		}
 	}()
 	idle := func() bool {
@@ -283,9 +293,28 @@ func c06Run(c c06Case) (res c06Result) {
 		defer mu.Unlock()
 		return sinceLog >= 30 && sweeps >= 3
 	}
+	down := false         // the harness keeps the node stopped (fork while down)
 	pump := func() bool { // handle a restart if the node stopped; false on failure
+		if down {
+			return true
+		}
+		stopped := false
 		select {
 		case <-done:
+			stopped = true
+		default:
+			mu.Lock()
+			hung := !cancelledAt.IsZero() && time.Since(cancelledAt) > 2*time.Second
+			mu.Unlock()
+			if hung {
+				res.abandoned++ // see O7: Sync does not return when cancelled inside handleReorg
+				stopped = true
+			}
+		}
+		if stopped {
+			mu.Lock()
+			cancelledAt = time.Time{}
+			mu.Unlock()
 			ctx, cancel = context.WithCancel(context.Background())
 			mu.Lock()
 			cancelFn = cancel
@@ -295,7 +324,6 @@ func c06Run(c c06Case) (res c06Result) {
 				res.inconcl = "constructor after restart: " + err.Error()
 				return false
 			}
-		default:
 		}
 		return true
 	}
@@ -330,7 +358,21 @@ func c06Run(c c06Case) (res c06Result) {
 	replacedHashes := map[common.Hash]bool{} // every block hash that a fork took off the canonical chain
 	maxTip := chain.Tip()
 	for i, f := range c.Forks {
-		isolated := f.Quiesce
+		isolated := f.Quiesce && !f.Down
+		if f.Down {
+			// stop the node (as a process stop), fork while it is down
+			waitRPCs(f.Trigger)
+			down = true
+			mu.Lock()
+			cancelledAt = time.Now()
+			mu.Unlock()
+			cancel()
+			select {
+			case <-done:
+			case <-time.After(2 * time.Second):
+				res.abandoned++
+			}
+		}
 		if isolated {
 			if !waitIdle(10 * time.Second) {
 				if res.inconcl == "" {
@@ -458,7 +500,27 @@ func c06Run(c c06Case) (res c06Result) {
 		for chain.Tip() <= maxTip {
 			chain.Extend(nil)
 		}
+		if f.Down && f.PassFin {
+			for chain.Tip() < at+uint64(c.FinLag)+1 {
+				chain.Extend(nil)
+			}
+		}
 		setPtrs()
+		if f.Down {
+			down = false
+			mu.Lock()
+			cancelledAt = time.Time{}
+			sinceLog, sweeps = 0, 0
+			mu.Unlock()
+			ctx, cancel = context.WithCancel(context.Background())
+			mu.Lock()
+			cancelFn = cancel
+			mu.Unlock()
+			if done, err = start(ctx); err != nil {
+				res.inconcl = "constructor after restart: " + err.Error()
+				return
+			}
+		}
 	}
 	// a canonical chain keeps growing: the final chain is at least as long as any fork the node has seen
 	for chain.Tip() <= maxTip {
@@ -497,9 +559,13 @@ func c06Run(c c06Case) (res c06Result) {
 	// (3) no spurious rewind: every recorded rewind is for a tracked block whose hash a fork really replaced
 	evs, tracked := reorgEventsFull(rdPath)
 	seenTracked := map[common.Hash]int{}
+	anyDown := false // a stop between the notification and the removal of the tracked range legitimately repeats the rewind
+	for _, f := range c.Forks {
+		anyDown = anyDown || f.Down
+	}
 	for k, e := range evs {
 		seenTracked[tracked[k]]++
-		if seenTracked[tracked[k]] > 1 && c.RestartAt < 0 {
+		if seenTracked[tracked[k]] > 1 && c.RestartAt < 0 && !anyDown {
 			res.verdict = fmt.Sprintf("the node was rewound to block %d more than once for the same replaced block version %s: the second rewind had nothing new to undo", e, tracked[k].Hex()[:12])
 			return
 		}
